@@ -159,6 +159,24 @@ def observe(m, cls, X):
             outer = torch.nn.ModuleList([c])
             outer.load_state_dict({'0.' + k: v for k, v in m.state_dict().items()})
             return (c.forward(X) if direction == 'f' else c.inverse(X))[0]
+        def alternating(direction):
+            # two live cached layers of the same class used alternately (two layers of one flow in evaluation mode): each must keep
+            # describing ITS OWN affine map
+            a = copy.deepcopy(m).eval(); a.use_cache(True)
+            o = copy.deepcopy(m).eval()
+            o.use_cache(True)
+            for q in o.parameters():
+                q.add_(0.3)
+            o.train(); o.eval()          # its parameters were edited: the documented way to drop its cache
+            o.forward(X)
+            if direction == 'f':
+                a.inverse(X); o.inverse(X)
+                return a.forward(X)[0]
+            a.forward(X); o.forward(X)
+            return a.inverse(X)[0]
+        if not is_err(obs['cached_forward']) and not is_err(obs['cached_inverse']):
+            obs['alternating_forward'] = _try(lambda: alternating('f'))
+            obs['alternating_inverse'] = _try(lambda: alternating('i'))
         if not is_err(obs['cached_forward']) and not is_err(obs['cached_inverse']):
             obs['reloaded_forward'] = _try(lambda: reloaded('f'))
             obs['reloaded_inverse'] = _try(lambda: reloaded('i'))
@@ -198,7 +216,8 @@ def model_obs(cls, resp, f, N, prec):
     ld = ld[0] if ld else float('nan')
     out.update({'weight': W, 'weight_inverse': Wi, 'logabsdet': [ld], 'wal_w': W, 'wal_ld': [ld], 'wial_wi': Wi, 'wial_ld': [ld],
                 'forward': fw, 'forward_ld': [ld] * N, 'inverse': iv, 'inverse_ld': [-ld] * N,
-                'cached_forward': fw, 'cached_inverse': iv, 'reloaded_forward': fw, 'reloaded_inverse': iv})
+                'cached_forward': fw, 'cached_inverse': iv, 'reloaded_forward': fw, 'reloaded_inverse': iv,
+                'alternating_forward': fw, 'alternating_inverse': iv})
     if cls == 'LULinear':
         out['L'], out['U'] = d(5), d(6)
     return out
@@ -252,14 +271,14 @@ def compare(ctx, case, cls, obs, mod, merr, kappa, prec, nontriv):
                              'implementation raised, model did not (or a different kind)')
             continue
         ctx.case(key=key, branch='%s/%s/%s' % (cls, case['params'], name), nontrivial=nontriv)
-        if merr and name in ('weight_inverse', 'wial_wi', 'cached_inverse', 'wial_ld', 'reloaded_inverse'):
+        if merr and name in ('weight_inverse', 'wial_wi', 'cached_inverse', 'wial_ld', 'reloaded_inverse', 'alternating_inverse'):
             ctx.disagree('c11/' + cls, dict(case, observable=name), 'value', merr, 'model raised, implementation returned a value')
             continue
         iv = [float(a) for a in v.detach().double().reshape(-1).tolist()]
         mv = mod.get(name)
         if mv is None:
             continue
-        if case['params'] == 'zero-weight' and name in ('inverse', 'reloaded_inverse'):
+        if case['params'] == 'zero-weight' and name in ('inverse', 'reloaded_inverse', 'alternating_inverse'):
             # singular weight: lu_solve returns non-finite values; only the finiteness pattern is compared
             iv = [1.0 if math.isfinite(a) else 0.0 for a in iv]
             mv = [1.0 if math.isfinite(a) else 0.0 for a in mv]
@@ -554,7 +573,9 @@ ACCESSOR = {'wial_wi': 'weight_inverse_and_logabsdet', 'wial_ld': 'weight_invers
             'wal_w': 'weight_and_logabsdet', 'wal_ld': 'weight_and_logabsdet', 'forward_ld': 'forward', 'inverse_ld': 'inverse',
             'cached_forward': 'forward(use_cache)', 'cached_inverse': 'inverse(use_cache)',
             'reloaded_forward': 'forward(use_cache) after load_state_dict of the enclosing module',
-            'reloaded_inverse': 'inverse(use_cache) after load_state_dict of the enclosing module'}
+            'reloaded_inverse': 'inverse(use_cache) after load_state_dict of the enclosing module',
+            'alternating_forward': 'forward(use_cache) while another cached layer of the class is in use',
+            'alternating_inverse': 'inverse(use_cache) while another cached layer of the class is in use'}
 
 
 def oracle_module(m, cls, X, prec, kappa=None):
@@ -626,6 +647,10 @@ def oracle_module(m, cls, X, prec, kappa=None):
             out.append(('cache', 'cached forward after the enclosing module loaded these weights differs from forward_no_cache (cache filled under the previous weights)', {'history': 'container-load'}))
         if 'reloaded_inverse' in obs and not is_err(obs['reloaded_inverse']) and (obs['reloaded_inverse'] - obs['inverse']).abs().max() > tt * (1 + float(obs['inverse'].abs().max())):
             out.append(('cache', 'cached inverse after the enclosing module loaded these weights differs from inverse_no_cache (cache filled under the previous weights)', {'history': 'container-load'}))
+        for d_ in ('forward', 'inverse'):
+            k_ = 'alternating_' + d_
+            if k_ in obs and not is_err(obs[k_]) and (obs[k_] - obs[d_]).abs().max() > tt * (sc if d_ == 'forward' else (1 + float(obs['inverse'].abs().max()))):
+                out.append(('cache', 'cached %s computes another map while a second cached layer of the class is in use' % d_, {'history': 'two-instances'}))
         for attr in ('orthogonal', 'orthogonal_1', 'orthogonal_2'):
             if hasattr(m, attr):
                 Q = getattr(m, attr).matrix()
